@@ -202,6 +202,12 @@ def c13(run, tier):
     # code -> spec: long random sessions over shared cursors, compiled expressions and result slices
     for i in range(Q(tier, 1, 4)):
         run.trace_validate(["-n", str(Q(tier, 2500, 15000)), "-sub", str(i)], "sessions%d" % i, frame_aspect=True, order_aspect=True, record_cmd="session-record")
+    # what BuildExpr returns for a string does not depend on the strings built before it: the string-function family builds, in one
+    # process, thousands of expressions that differ only inside their literals (every string of <= 3 characters over an alphabet
+    # with several kinds of white space) and every value is judged
+    cfg = run.cfg("MC_Values.cfg", {"Family": '"C07u"'}, "gen.literals.cfg")
+    rep = run.tlc_gen_replay("MC_Values", cfg, "literal-history", timeout=Q(tier, 600, 3000), harness_args=["-workers", "1"])
+    run.absorb(rep, VALUE_ASPECTS)
 
 
 def session_replay(run, path):
@@ -290,18 +296,18 @@ def c14(run, tier):
     traces = {}     # config -> list of event lists
     nruns = 0
 
-    def one_run(nf, n, prints, env, label, big=False, mode="-a"):
+    def one_run(nf, n, prints, env, label, big=False, mode="-a", query="//a"):
         nonlocal nruns
         d = os.path.join(fdir, "%s-%d" % (label, nruns))
         paths = cli.write_files(d, nf, prints, big)
         rel = [os.path.relpath(p, d) for p in paths]
         fmap = {r: i + 1 for i, r in enumerate(rel)}
-        ref = cli.run_cli(binary, ["-c", "1", mode, "-x", "//a"] + rel, cwd=d, timeout=300)
+        ref = cli.run_cli(binary, ["-c", "1", mode, "-x", query] + rel, cwd=d, timeout=300)
         tr = os.path.join(d, "hook.log")
         e = dict(env)
         e["XSEL_VERIF_TRACE"] = tr
         e["GORACE"] = "halt_on_error=0 atexit_sleep_ms=0 exitcode=0"
-        got = cli.run_cli(binary, ["-c", str(n), mode, "-x", "//a"] + rel, env=e, cwd=d, timeout=300)
+        got = cli.run_cli(binary, ["-c", str(n), mode, "-x", query] + rel, env=e, cwd=d, timeout=300)
         nruns += 1
         run.evaluations += 1
         evs, gave = cli.parse_hook_trace(tr, fmap)
@@ -317,8 +323,8 @@ def c14(run, tier):
             keep = os.path.join(run.root, "replays", run.pid)
             os.makedirs(keep, exist_ok=True)
             dst = os.path.join(keep, "cli-%s-%d.json" % (label, nruns))
-            json.dump({"fam": "C14.cli", "nf": nf, "n": n, "prints": sorted(prints), "env": {k: v for k, v in env.items()}, "big": big, "mode": mode, "why": detail}, open(dst, "w"))
-            run.violations.append({"aspect": a, "fam": "C14.cli", "text": "xsel -c %d %s -x //a %s" % (n, mode, " ".join(rel)), "detail": detail, "replay": dst})
+            json.dump({"fam": "C14.cli", "nf": nf, "n": n, "prints": sorted(prints), "env": {k: v for k, v in env.items()}, "big": big, "mode": mode, "query": query, "why": detail}, open(dst, "w"))
+            run.violations.append({"aspect": a, "fam": "C14.cli", "text": "xsel -c %d %s -x %s %s" % (n, mode, query, " ".join(rel)), "detail": detail, "replay": dst})
             run.viol_total = getattr(run, "viol_total", 0) + 1
         traces.setdefault((nf, n, n > 1, tuple(sorted(prints))), []).append(evs)
         return evs, gave
@@ -364,6 +370,10 @@ def c14(run, tier):
     # (d) large output blocks (several hundred KiB per file, -a and -m): a block must stay contiguous and intact whatever its size
     for i in range(Q(tier, 4, 16)):
         one_run(6, 4, {1, 2, 3, 4, 5, 6}, {"XSEL_VERIF_YIELD": str(run.seed * 31 + i)}, "large", big=Q(tier, 4000, 12000), mode=("-a" if i % 2 == 0 else "-m"))
+    # (e) files of all three types parsed at once: XML with different namespace declarations on every element, JSON full of
+    # numbers, HTML full of attributes - whatever the parsers keep outside the single document is shared by the workers
+    for i in range(Q(tier, 4, 20)):
+        one_run(9, 8, set(range(1, 10)), {"XSEL_VERIF_YIELD": str(run.seed * 131 + i)}, "mixed", big="mixed", query="//a | //a/@* | //a/namespace::* | //b")
     # all hook traces are judged by Trace_CliPool, one TLC run per configuration
     for (nf, n, conc, prints), lst in traces.items():
         import hashlib
@@ -409,9 +419,10 @@ def c14_replay(run, path):
         rel = [os.path.relpath(p, d) for p in paths]
         fmap = {r: k + 1 for k, r in enumerate(rel)}
         mode = rc.get("mode", "-a")
-        ref = cli.run_cli(binary, ["-c", "1", mode, "-x", "//a"] + rel, cwd=d, timeout=300)
+        query = rc.get("query", "//a")
+        ref = cli.run_cli(binary, ["-c", "1", mode, "-x", query] + rel, cwd=d, timeout=300)
         tr = os.path.join(d, "hook.log")
-        got = cli.run_cli(binary, ["-c", str(n), mode, "-x", "//a"] + rel, env={"XSEL_VERIF_TRACE": tr, "XSEL_VERIF_YIELD": str(i)}, cwd=d, timeout=300)
+        got = cli.run_cli(binary, ["-c", str(n), mode, "-x", query] + rel, env={"XSEL_VERIF_TRACE": tr, "XSEL_VERIF_YIELD": str(i)}, cwd=d, timeout=300)
         why = cli.compare_blocks(ref.stdout, got.stdout)
         if why or "DATA RACE" in got.stderr:
             print("REPRODUCED:", why or "data race")
@@ -435,12 +446,23 @@ def c14_replay(run, path):
     return 0
 
 
-def record_and_judge(run, cmd, args, label, replay_kind, aspects):
+def record_and_judge(run, cmd, args, label, replay_kind, aspects, conc=0):
+    """conc > 0: the recorder reads its documents with that many goroutines at once, in the race-built harness (parsers that
+    keep state outside the single document show up as data races or as trees holding another document's data)"""
     import os, json
     from infra import Infra
     t = os.path.join(run.work, "%s.ndjson" % label)
     rp = os.path.join(run.work, "%s.report.json" % label)
-    p = run.harness_cmd([cmd, "-out", t, "-report", rp, "-replays", os.path.join(run.root, "replays", run.pid)] + args, label, timeout=1800)
+    env = {"VERIF_PARSE_CONC": str(conc), "GORACE": "halt_on_error=0 atexit_sleep_ms=0 exitcode=0"} if conc else None
+    p = run.harness_cmd([cmd, "-out", t, "-report", rp, "-replays", os.path.join(run.root, "replays", run.pid)] + args, label, timeout=1800, race=bool(conc), env=env)
+    if conc and "DATA RACE" in p.stderr:
+        keep = os.path.join(run.root, "replays", run.pid)
+        os.makedirs(keep, exist_ok=True)
+        dst = os.path.join(keep, "race-%s.txt" % label)
+        open(dst, "w").write(p.stderr[-20000:])
+        run.violations.append({"aspect": "race", "fam": replay_kind, "text": "", "detail": "Go race detector while %d goroutines read documents at once: %s" %
+                               (conc, " | ".join(p.stderr.splitlines()[:8])[:400]), "replay": dst})
+        run.viol_total = getattr(run, "viol_total", 0) + 1
     if p.returncode != 0 or not os.path.exists(rp):
         raise Infra("%s failed: %s" % (cmd, (p.stdout + p.stderr)[-1500:]))
     rep = json.load(open(rp))
@@ -465,6 +487,8 @@ def c16(run, tier):
     run.judge_trace(trace, "Trace_Store", "json-trees", "C16.store", timeout=1800)
     # code -> spec: random values (depth <= 4), Pull streams judged against DocEvents by the trace specification
     record_and_judge(run, "json-record", ["-n", str(Q(tier, 800, 8000))], "json-random", "C16.trace", ADAPTER_ASPECTS)
+    # the same with 8 goroutines reading (different) texts at once: every tree must still be its own text's mapping
+    record_and_judge(run, "json-record", ["-n", str(Q(tier, 600, 6000)), "-sub", "7"], "json-concurrent", "C16.trace", ADAPTER_ASPECTS, conc=8)
 
 
 def c17(run, tier):
@@ -475,6 +499,8 @@ def c17(run, tier):
     run.absorb(rep, ADAPTER_ASPECTS)
     run.judge_trace(trace, "Trace_Store", "dom-shapes", "C17.trace", timeout=1800, max_lines=120000)
     record_and_judge(run, "html-record", ["-n", str(Q(tier, 1500, 9000))], "tag-soup", "C17.trace", ADAPTER_ASPECTS)
+    # the same with 8 goroutines reading (different) documents at once
+    record_and_judge(run, "html-record", ["-n", str(Q(tier, 1000, 6000)), "-sub", "7"], "tag-soup-concurrent", "C17.trace", ADAPTER_ASPECTS, conc=8)
 
 
 def c09(run, tier):
@@ -533,7 +559,7 @@ def c20_replay(run, path):
 
 
 def c08(run, tier):
-    for alpha, n in [("core", Q(tier, 3, 4)), ("ops", Q(tier, 3, 4)), ("paths", Q(tier, 3, 4)), ("lex", Q(tier, 3, 4))]:
+    for alpha, n in [("core", Q(tier, 3, 4)), ("ops", Q(tier, 3, 4)), ("paths", Q(tier, 3, 4)), ("lex", Q(tier, 3, 4)), ("split", 4)]:
         cfg = run.cfg("MC_Grammar.cfg", {"Alphabet": '"%s"' % alpha, "MaxLen": n}, "gen.%s.cfg" % alpha)
         rep = run.tlc_gen_replay("MC_Grammar", cfg, alpha, timeout=Q(tier, 600, 3600), harness_args=["-workers", "1"])
         run.absorb(rep, VALUE_ASPECTS | {"accepts-invalid"})
